@@ -35,34 +35,58 @@ class Bench:
         self.sent = []
         self.t._send_user_message = self.sent.append
         self.chans = {}
+        self.dead = False
+        self.Channel = Channel
         for cid in range(k):
-            ch = Channel(cid)
-            self.t._channels.put(cid, ch)
-            ch._set_transport(self.t)
-            ch._set_window(1 << 20, 1 << 15)
-            ch._set_remote_channel(100 + cid, 1 << 20, 1 << 15)
-            ch.settimeout(0.0)
-            self.chans[cid] = ch
+            self.open(cid)
+
+    def open(self, cid):
+        """what open_channel / _parse_channel_open do to the tables (ids are only handed out if not live)"""
+        if self.dead:
+            return "down"
+        if self.t._channels.get(cid) is not None:
+            return "inuse"
+        ch = self.Channel(cid)
+        self.t._channels.put(cid, ch)
+        self.t.channels_seen[cid] = True
+        ch._set_transport(self.t)
+        ch._set_window(1 << 20, 1 << 15)
+        ch._set_remote_channel(100 + cid, 1 << 20, 1 << 15)
+        ch.settimeout(0.0)
+        self.chans[cid] = ch
+        return "ok"
 
     def dispatch(self, ptype, m):
         """the channel branch of Transport.run"""
+        if self.dead:
+            return "down"
         m.rewind()
         chanid = m.get_int()
         chan = self.t._channels.get(chanid)
-        if chan is None:
-            return "nochan"
-        self.t._channel_handler_table[ptype](chan, m)
-        return "ok"
+        if chan is not None:
+            self.t._channel_handler_table[ptype](chan, m)
+            return "ok"
+        if chanid in self.t.channels_seen:
+            return "dropped"            # "Ignoring message for dead channel"
+        # "Channel request for unknown channel": the loop breaks; what run() does on its way out
+        for ch in list(self.t._channels.values()):
+            ch._unlink()
+        self.dead = True
+        return "unknown"
 
     def do(self, act):
         from paramiko.common import (MSG_CHANNEL_DATA, MSG_CHANNEL_EXTENDED_DATA, MSG_CHANNEL_EOF,
-                                     MSG_CHANNEL_REQUEST)
+                                     MSG_CHANNEL_REQUEST, MSG_CHANNEL_CLOSE)
         from paramiko.message import Message
 
         k = act[0]
-        if k in ("data", "ext", "eof", "exit"):
+        if k == "open":
+            return self.open(act[1])
+        if k in ("data", "ext", "eof", "exit", "rclose"):
             m = Message()
             m.add_int(act[1])
+            if k == "rclose":
+                return self.dispatch(MSG_CHANNEL_CLOSE, m)
             if k == "data":
                 m.add_string(act[2])
                 return self.dispatch(MSG_CHANNEL_DATA, m)
@@ -82,6 +106,9 @@ class Bench:
         if k == "combine":
             ch.set_combine_stderr(bool(act[2]))
             return "ok"
+        if k == "close":
+            ch.close()
+            return "ok"
         if k in ("recv", "recverr"):
             try:
                 out = (ch.recv if k == "recv" else ch.recv_stderr)(act[2])
@@ -89,10 +116,12 @@ class Bench:
                 return "timeout"
             return "data:" + hx(out)
         if k == "state":
-            return "out=%s err=%s combine=%d eof=%d exit=%s" % (
+            linked = (not self.dead) and self.t._channels.get(act[1]) is ch
+            return "out=%s err=%s combine=%d eof=%d closed=%d linked=%d exit=%s alive=%d" % (
                 hx(ch.in_buffer._buffer.tobytes()), hx(ch.in_stderr_buffer._buffer.tobytes()),
-                1 if ch.combine_stderr else 0, 1 if ch.eof_received else 0,
-                "none" if ch.exit_status == -1 else str(ch.exit_status))
+                1 if ch.combine_stderr else 0, 1 if ch.eof_received else 0, 1 if ch.closed else 0,
+                1 if linked else 0, "none" if ch.exit_status == -1 else str(ch.exit_status),
+                0 if self.dead else 1)
         raise InfraError("C21: act %r" % (act,))
 
     def close(self):
@@ -107,7 +136,7 @@ def req_of(act):
         return "data %d %s" % (act[1], hx(act[2]))
     if k == "ext":
         return "ext %d %d %s" % (act[1], act[2], hx(act[3]))
-    if k in ("eof", "state"):
+    if k in ("eof", "state", "close", "rclose", "open"):
         return "%s %d" % (k, act[1])
     if k == "exit":
         return "exit %d %d" % (act[1], act[2])
@@ -119,9 +148,14 @@ def req_of(act):
 def gen_history(rng, k, n):
     acts = []
     eofs = set()
+    wind = rng.random() < 0.5   # half of the histories also close / re-open channels and may lose the transport
     for _ in range(n):
-        c = rng.randrange(k) if rng.random() < 0.96 else k + rng.randrange(3)
+        c = rng.randrange(k) if rng.random() < (0.985 if wind else 1.0) else k + rng.randrange(3)
         r = rng.random()
+        if wind and r < 0.09:
+            x = rng.random()
+            acts.append(("close", c) if x < 0.35 else ("rclose", c) if x < 0.7 else ("open", rng.randrange(k + 2)))
+            continue
         payload = rng.randbytes(rng.choice([0, 1, 1, 2, 3, 5, 8, 20]))
         if r < 0.25 and c not in eofs:
             acts.append(("data", c, payload))
@@ -306,7 +340,7 @@ def race_runs(ctx):
 
 
 # ------------------------------------------------------------------ oracle 2: end to end
-def e2e(ctx, nchan, nbytes, compress, rekey, label, id_offset=1):
+def e2e(ctx, nchan, nbytes, compress, rekey, label, id_offset=1, victim=False, server_offset=0):
     import paramiko
     from tests._loop import LoopSocket
 
@@ -342,6 +376,7 @@ def e2e(ctx, nchan, nbytes, compress, rekey, label, id_offset=1):
         # local and remote channel ids must differ (and overlap across channels), otherwise a message addressed with
         # the wrong one of the two ids still arrives: the client numbers its channels from `id_offset`
         tc._channel_counter = id_offset
+        ts._channel_counter = server_offset
         ctx.dist("e2e:client-id-offset=%d" % id_offset)
         plans = []
         for i in range(nchan):
@@ -403,8 +438,46 @@ def e2e(ctx, nchan, nbytes, compress, rekey, label, id_offset=1):
             except Exception as e:
                 errors.append(("reader-" + stream, i, e))
 
+        # a channel the application closes early while the peer is still sending on it: what was read must be a
+        # prefix of what was sent, later data must not show up anywhere else (the other channels are checked exactly,
+        # and so is a channel opened afterwards)
+        vic = None
+        if victim:
+            vc = tc.open_session(timeout=LIMIT)
+            vc.exec_command("x")
+            vs = ts.accept(LIMIT)
+            if vs is None:
+                raise InfraError("C21 e2e: server did not get the victim channel")
+            vdata = bytes(b & 0x7F for b in rng.randbytes(300000))
+            vic = {"read": b"", "writer": None}
+
+            def vwriter():
+                try:
+                    for i in range(0, len(vdata), 1500):
+                        vs.sendall(vdata[i:i + 1500])
+                    vic["writer"] = "done"
+                except Exception as e:      # the expected end: the client closed the channel
+                    vic["writer"] = type(e).__name__
+
+            def vreader():
+                try:
+                    while len(vic["read"]) < 6000:
+                        x = vc.recv(700)
+                        if not x:
+                            break
+                        vic["read"] += x
+                    vc.close()
+                except Exception as e:
+                    errors.append(("victim-reader", -1, e))
+
         rekey_done = threading.Event()
         ths = []
+        vths = []
+        if victim:
+            for target in (vreader, vwriter):
+                th = threading.Thread(target=target, daemon=True)
+                th.start()
+                vths.append(th)
         order = list(range(nchan))
         rng.shuffle(order)
         for i in order:
@@ -415,6 +488,55 @@ def e2e(ctx, nchan, nbytes, compress, rekey, label, id_offset=1):
         try:
             for _ in range(rekey or 0):
                 tc.renegotiate_keys()
+            for th in vths:
+                th.join(LIMIT)
+                if th.is_alive():
+                    raise InfraError("C21 e2e (%s): victim channel threads did not finish" % label)
+            # while every other channel is still open (their writers wind up only after `rekey_done`):
+            if vic is not None:
+                ctx.case(("e2e-victim", label, len(vic["read"])), True)
+                ctx.dist("e2e-victim-writer:" + str(vic["writer"]))
+                if not vdata.startswith(vic["read"]):
+                    ctx.fail("e2e-closed-channel-read-not-a-prefix", {"e2e": label}, first_diff(vic["read"], vdata))
+                # a channel opened after the close gets exactly its own data
+                nc = tc.open_session(timeout=LIMIT)
+                nc.exec_command("x")
+                ns = ts.accept(LIMIT)
+                if ns is None:
+                    raise InfraError("C21 e2e: server did not get the late channel")
+                # The peer keeps talking to the dead channel.  open_session() has returned, so the client has processed
+                # the peer's CLOSE of the victim (it was sent earlier on the same wire): this DATA message addresses an id
+                # that is seen-but-dead and must be dropped by the real run loop.
+                from paramiko.common import cMSG_CHANNEL_DATA
+                from paramiko.message import Message
+                stray = Message()
+                stray.add_byte(cMSG_CHANNEL_DATA)
+                stray.add_int(vc.get_id())
+                stray.add_string(b"\x7eSTRAY" * 20)
+                ts._send_user_message(stray)
+                late = bytes(b & 0x7F for b in rng.randbytes(5000))
+                ns.sendall(late)
+                ns.shutdown_write()
+                got_late = b""
+                nc.settimeout(LIMIT)
+                while True:
+                    x = nc.recv(4096)
+                    if not x:
+                        break
+                    got_late += x
+                if got_late != late:
+                    ctx.fail("e2e-late-channel-stream-differs", {"e2e": label}, first_diff(got_late, late))
+                # the late channel's EOF came after the stray message on the wire: it has been handled by now
+                if not tc.is_active():
+                    ctx.fail("e2e-dead-channel-data-kills-transport", {"e2e": label}, repr(tc.get_exception()))
+                for j, c in enumerate(cchans + [vc, nc]):
+                    left = c.in_buffer._buffer.tobytes() + c.in_stderr_buffer._buffer.tobytes()
+                    if b"STRAY" in left:
+                        ctx.fail("e2e-dead-channel-data-misdelivered", {"e2e": label, "client-channel-id": c.get_id()},
+                                 "data addressed to the closed channel %d showed up in channel %d" % (vc.get_id(), c.get_id()))
+                if not vdata.startswith(vic["read"] + vc.in_buffer._buffer.tobytes()):
+                    ctx.fail("e2e-closed-channel-buffer-not-a-prefix", {"e2e": label}, "buffer of the closed channel is not "
+                             "a continuation of its stream")
         finally:
             rekey_done.set()
         for th in ths:
@@ -423,6 +545,9 @@ def e2e(ctx, nchan, nbytes, compress, rekey, label, id_offset=1):
                 raise InfraError("C21 e2e (%s): transfer did not finish within %d s" % (label, LIMIT))
         for role, i, e in errors:
             ctx.fail("e2e-exception:" + exc_site(e), {"e2e": label, "channel": i, "role": role}, repr(e)[:300])
+        if vic is not None and any(b"STRAY" in x for g in got for x in g["out"] + g["err"]):
+            ctx.fail("e2e-dead-channel-data-misdelivered", {"e2e": label}, "data addressed to the closed channel showed "
+                     "up in the stream read from another channel")
         if not errors:
             for i, p in enumerate(plans):
                 out_sent = b"".join(c for s, c in p["writes"] if s == "out")
@@ -513,8 +638,9 @@ def run(ctx):
                                  m, r)
                     break
         # model-independent oracle on the same run: per channel, without any combine switch: read ++ buffered == sent
+        lost = any(r == "unknown" for r in impl)
         for c in range(k):
-            if any(a[0] == "combine" and a[1] == c for a in acts):
+            if any(a[0] in ("combine", "rclose", "open") and a[1] == c for a in acts) or lost:
                 continue
             sent_out = b"".join(a[2] for a in acts if a[0] == "data" and a[1] == c)
             sent_err = b"".join(a[3] for a in acts if a[0] == "ext" and a[1] == c and a[2] == 1)
@@ -523,6 +649,8 @@ def run(ctx):
             read_err = b"".join(bytes.fromhex(r[5:]) for a, r in zip(acts, impl)
                                 if a[0] == "recverr" and a[1] == c and r.startswith("data:") and r != "data:-")
             final = next(r for a, r in reversed(list(zip(acts, impl))) if a[0] == "state" and a[1] == c)
+            if final == "nochan":
+                continue
             f = dict(x.split("=") for x in final.split())
             buf_out = b"" if f["out"] == "-" else bytes.fromhex(f["out"])
             buf_err = b"" if f["err"] == "-" else bytes.fromhex(f["err"])
@@ -542,9 +670,9 @@ def run(ctx):
     if ctx.thorough:
         e2e(ctx, 8, 512 * 1024, True, 2, "8x512KiB+zlib+rekey")
         e2e(ctx, 8, 512 * 1024, False, 1, "8x512KiB+rekey", id_offset=3)
-        e2e(ctx, 4, 100000, False, 0, "4x100k", id_offset=40)
+        e2e(ctx, 4, 100000, False, 0, "4x100k+early-close", id_offset=40, victim=True)
     else:
-        e2e(ctx, 3, 64 * 1024, False, 0, "3x64KiB")
+        e2e(ctx, 3, 64 * 1024, False, 0, "3x64KiB+early-close", id_offset=0, victim=True, server_offset=9)
         e2e(ctx, 3, 20000, True, 1, "3x20k+zlib+rekey", id_offset=7)
 
 
@@ -557,11 +685,21 @@ META = {
               "the stderr data buffered at that moment to the stdout stream atomically and from then on the stdout "
               "stream grows by everything arriving on either stream in arrival order while stderr stays empty "
               "(switch_on_moves_buffered_stderr, combined_stream, combined_from_switch); the exit status reported is the "
-              "last one sent (exit_status_is_the_one_sent). Witness theorem for the old two-region set_combine_stderr "
+              "last one sent (exit_status_is_the_one_sent). Wind-up: local close() keeps the channel registered (late data "
+              "still lands in it and nowhere else); after the peer's CLOSE the id is dead and everything still sent under it "
+              "is dropped (dead_channel_drops, late_data_is_dropped); a channel opened under a free or dead id starts empty "
+              "and a live id is never reused (reopened_channel_starts_empty, open_live_id_is_noop); a message for a never-"
+              "used id ends the run loop, closing every channel without touching its data, and nothing is delivered "
+              "afterwards (unknown_channel_kills_transport, kill_keeps_data, dead_transport_delivers_nothing). The "
+              "refinement run_proj holds for any history in which the channel stays registered and the peer addresses ids "
+              "in use; the executable association-list table is proved to refine the abstract map (table_refines). Witness theorem for the old two-region set_combine_stderr "
               "(reads 'BA'). Tied to channel.py/transport.py by step-exact differential runs through the real dispatch "
               "tables on 1-8 real channels, by enumeration of the line-level interleavings of set_combine_stderr with "
               "arriving data on the real code, and by end-to-end transfers between two real Transports."),
-    "note": ("The FIFOs themselves (BufferedPipe) are property C26; window accounting, EOF/close ordering and the packet "
+    "note": ("The dead-channel / unknown-channel branches of Transport.run are replicated in the correspondence bench (glue in the "
+             "harness) and exercised in the real run loop end to end (a channel closed early by the application, stray "
+             "DATA for its dead id injected by the peer while all other channels are open, a channel opened afterwards). "
+             "The FIFOs themselves (BufferedPipe) are property C26; window accounting, EOF/close ordering and the packet "
              "layer are other properties and only exercised end to end here. The atomicity of set_combine_stderr and "
              "_feed_extended (both under Channel.lock since fix 7aff1cb) is what the model's single-region actions rely "
              "on; it is checked on the real code by the schedule enumeration (DFS capped per scenario + every "
